@@ -28,6 +28,9 @@
 #ifndef VERIF_CUT_rfi_after_search
 #define VERIF_CUT_rfi_after_search	((void)0)
 #endif
+#ifndef VERIF_CUT_pvalue_before_chisq
+#define VERIF_CUT_pvalue_before_chisq	((void)0)
+#endif
 #define VERIF_CUT(name)			VERIF_CUT_##name
 
 #else /* !LIBVNA_VERIF */
